@@ -171,3 +171,21 @@ def check(prog, run):
     nomemo.check(prog, run, "D6", [call], "MaxDepthValidationRule.__call__",
                  "a document edited in place (a fragment replaced or added) would be measured against the fragments it had when "
                  "first looked at, and a deep operation would pass", 5)
+
+    # ---- D7 the depth walk is schema-blind
+    r = run.rule("D7", "nothing reachable from MaxDepthValidationRule.__call__ filters selections by type: no call to the typed "
+                       "collect_fields / _fragment_type_applies and no use of schema root types (query_type, mutation_type, ...) on the "
+                       "measuring path — a fragment whose type condition `does not apply` to an assumed root type would be dropped and "
+                       "its depth not measured (mutations, subscriptions, abstract positions)", 5)
+    from .. import nomemo
+    closure = nomemo.closure(prog, [call])
+    for f in closure:
+        r.instance(f.qualname, nontrivial=False)
+        for n in own_nodes(f.node):
+            if isinstance(n, ast.Call) and isinstance(n.func, ast.Name) and n.func.id in ("collect_fields", "_fragment_type_applies"):
+                run.report(r, "%s:%s:typed-collection(%s)" % (f.module.name, f.qualname, n.func.id), f.where(n),
+                           "%s calls %s, which drops fragments whose type condition does not apply to the type it is given: their "
+                           "nesting is not measured" % (f.qualname, n.func.id))
+            if isinstance(n, ast.Attribute) and n.attr in ("query_type", "mutation_type", "subscription_type") and f.module.name.endswith("max_depth"):
+                run.report(r, "%s:%s:assumes-root(%s)" % (f.module.name, f.qualname, n.attr), f.where(n),
+                           "the depth rule consults schema.%s: the measurement depends on an assumed root type" % n.attr)
